@@ -120,6 +120,13 @@ class PyBackend(object):
         l = self.plist(ws)
         return self.stabilizer.StabilizerState(gs=l.gs, ps=l.ps, r=r)
 
+    def retype(self, L, gdt, pdt):
+        """same content, other element types of the user's arrays (uint8 parity-check bits, int32 phases, float64 ...)"""
+        L.gs = L.gs.astype(getattr(numpy, gdt))
+        if pdt:
+            L.ps = L.ps.astype(getattr(numpy, pdt))
+        return L
+
     def relayout(self, L, layout):
         """same content, other memory layout of gs / ps (what slicing, transposition or .inverse() hand to users):
         "rev" = reversed view of a reversed copy, "step" = every second row of an interleaved array,
@@ -248,6 +255,14 @@ class TorchBackend(object):
     def state(self, ws, r):
         l = self.plist(ws)
         return self.stabilizer.StabilizerState(gs=l.gs, ps=l.ps, r=r)
+
+    def retype(self, L, gdt, pdt):
+        tt = {"int32": self.torch.int32, "int8": self.torch.int8, "uint8": self.torch.uint8, "uint64": self.torch.int64,
+              "float64": self.torch.float64, "int64": self.torch.int64}
+        L.gs = L.gs.to(tt[gdt])
+        if pdt:
+            L.ps = L.ps.to(tt[pdt])
+        return L
 
     def relayout(self, L, layout):
         torch = self.torch
